@@ -59,6 +59,21 @@ CHECKS["C01"] = {
     "design_ref": "DESIGN.md 2.3, 3 (C01)",
 }
 
+CHECKS["C13"] = {
+    "engine": "W",
+    "technique": "deterministic simulation of the two-party world (stub ranks write, real loader reads), seeded fault-free search over worlds x selections x optional-file presence; differential (full vs selective fresh loads) + ground-truth model + independent naming rule",
+    "text": "Exploration, fault-free world search + file-presence configurations: each world (mesh with hydro/grav/rt, particles, sinks) is loaded by two fresh datasets, fully and with a seeded group/variable selection (group lists, groups switched off/on, per-group variable lists incl. component subsets); every requested variable must equal the full load's array element for element, nothing excluded may be present, the key set must follow an independent implementation of the merge rule, and when geometry is present the selective result is also compared with the ground-truth tree. Worlds with an optional file removed must equal worlds that never had it. No schedule or fault is involved; sampling, not proof.",
+    "note": "Trusted: as C01 (writer, unit table); the full load serves as the reference for element-wise equality and is itself checked against the model by C01.",
+    "design_ref": "DESIGN.md 2.3, 3 (C13)",
+}
+CHECKS["C14"] = {
+    "engine": "W",
+    "technique": "deterministic simulation of the two-party world (stub ranks write particle files and sink CSV, real loader reads), seeded fault-free search over populations, descriptors, dialects and file presence; ground truth as reference model",
+    "text": "Exploration, fault-free world search + file-presence configurations: stub ranks write particle files (0..30 particles per rank incl. empty ranks, d/i/b columns in any order, header records of varying length, ndim 1-3) and a sink CSV (1..6 sinks, arbitrary columns, code-unit or legacy-bracket unit line, empty or absent). The loaded tables must equal the concatenation over ranks of the stored values times an independent unit table, typed, row-aligned (unique ids), vector-assembled by the naming rule, sorted by the requested key, with nparticles matching. No schedule or fault is involved; sampling, not proof.",
+    "note": "Trusted: the author's knowledge of backup_part and of the sink CSV dialects; independent parser of the code-unit expressions (m, l, t exponents).",
+    "design_ref": "DESIGN.md 2.3, 3 (C14)",
+}
+
 PENDING_REASON = "check not built yet in this snapshot of /verif (planned and applicable, see DESIGN.md section 3); not claimed until its check exists"
 ALL = ["C%02d" % i for i in range(1, 21)]
 
